@@ -18,9 +18,11 @@ Separate Extraction SP.Extract.$ROOT.roots.
 EOV
 timeout 600 coqc -Q ../../coq/theories SP ExtractAll.v
 rm -f ExtractAll.* .ExtractAll.aux
+EXTR=$(ls *.ml)
 cp ../wire.ml ../main.ml $DRV .
-EXTR=$(ls *.ml | grep -v -e '^wire.ml$' -e '^drv_' -e '^main.ml$')
+WF=""
+if [ -f Flat.ml ]; then cp ../wire_flat.ml .; WF=wire_flat.ml; fi
 ORDER=$(ocamlfind ocamldep -sort $(ls *.mli) $EXTR)
-timeout 900 ocamlfind ocamlopt -w -a -O2 $ORDER wire.ml drv_*.ml main.ml -o ../$OUT 2>/dev/null || \
-timeout 900 ocamlfind ocamlopt -w -a $ORDER wire.ml drv_*.ml main.ml -o ../$OUT
+timeout 900 ocamlfind ocamlopt -w -a -O2 $ORDER wire.ml $WF drv_*.ml main.ml -o ../$OUT 2>/dev/null || \
+timeout 900 ocamlfind ocamlopt -w -a $ORDER wire.ml $WF drv_*.ml main.ml -o ../$OUT
 echo "built extract/$OUT"
